@@ -123,13 +123,72 @@ var extTypes = []struct{ j5, full, kind string }{
 	{"any", "j5.types.any.v1.Any", "any"},
 }
 
-// textNoise: attributes the compiler accepts and the compared output must not depend on
+var descTexts = []string{"a field", "the id", "x", "with \"quotes\"", "Two  spaces, a comma; and a colon: here.", "trailing space ", "// looks like a comment", "unicode \u00e9\u00df"}
+
+var blockTexts = []string{"one line", "first line\nsecond line", "Three\nlines of\ntext.", "with \"quotes\" inside\nand a second line"}
+
+// textNoise: an attribute the compiler accepts and the compared output must not depend on (an
+// explicit protoField number), and a description (compared: it becomes the field's leading comment)
 func textNoise(r *vh.Rand, u *uField) {
 	if r.Chance(8) {
 		u.ProtoField = vh.Pick(r, []int{1, 2, 3, 7, 11, 40})
 	}
-	if r.Chance(6) {
-		u.Desc = vh.Pick(r, []string{"a field", "the id", "x", "with \"quotes\""})
+	if r.Chance(10) {
+		u.Desc = vh.Pick(r, descTexts)
+		if r.Chance(35) {
+			// the block form `| text`: the only one that can hold several lines
+			u.Desc, u.DescBlock = vh.Pick(r, blockTexts), true
+		}
+	}
+}
+
+// addDescriptions: descriptions of the elements that are not fields. Events, statuses, the schemas
+// of the block and enum options keep theirs (leading comments); the entity's, a command's, a
+// method's and a summary's description is accepted and appears nowhere in the output.
+func addDescriptions(r *vh.Rand, d *entityDecl) {
+	for i := range d.Events {
+		if r.Chance(15) {
+			d.Events[i].Desc = vh.Pick(r, descTexts)
+			if r.Chance(35) {
+				d.Events[i].Desc = vh.Pick(r, blockTexts[1:])
+			}
+		}
+	}
+	if r.Chance(15) {
+		d.StatusDesc = make([]string, len(d.Status))
+		for i := range d.Status {
+			if r.Chance(60) {
+				d.StatusDesc[i] = vh.Pick(r, descTexts)
+			}
+		}
+	}
+	for i := range d.Schemas {
+		if r.Chance(20) {
+			d.Schemas[i].Desc = vh.Pick(r, descTexts)
+		}
+		if d.Schemas[i].Kind == 2 && r.Chance(30) {
+			d.Schemas[i].OptionDesc = make([]string, len(d.Schemas[i].Options))
+			for j := range d.Schemas[i].Options {
+				if r.Chance(60) {
+					d.Schemas[i].OptionDesc[j] = vh.Pick(r, descTexts)
+				}
+			}
+		}
+	}
+	for i := range d.Commands {
+		if r.Chance(10) {
+			d.Commands[i].Desc = vh.Pick(r, descTexts)
+		}
+		for j := range d.Commands[i].Methods {
+			if r.Chance(10) {
+				d.Commands[i].Methods[j].Desc = vh.Pick(r, descTexts)
+			}
+		}
+	}
+	for i := range d.Summaries {
+		if r.Chance(10) {
+			d.Summaries[i].Desc = vh.Pick(r, descTexts)
+		}
 	}
 }
 
@@ -168,9 +227,40 @@ func genAnyField(r *vh.Rand, name string) uField {
 	return u
 }
 
+// growTree turns one or two fields of an inline object / oneof into deeper structure: a nested inline
+// schema (recursively, up to depth levels) or, inside an object, an array / a map of a simple type
+func growTree(r *vh.Rand, u *uField, depth int) {
+	n := r.Range(1, 2)
+	for k := 0; k < n && k < len(u.InFields); k++ {
+		i := r.Intn(len(u.InFields))
+		f := &u.InFields[i]
+		if f.Inline != "" || f.Container != "" {
+			continue
+		}
+		if u.Inline == "object" && r.Chance(35) {
+			f.Container = vh.Pick(r, []string{"array", "map"})
+			f.Optional = false
+			continue
+		}
+		child := genInline(r, f.Name)
+		if u.Inline == "oneof" {
+			// the members of a proto oneof are singular
+			child.Container, child.Required, child.Optional = "", false, false
+		}
+		if child.Inline != "enum" && len(child.InFields) > 0 && depth > 1 && r.Chance(50) {
+			growTree(r, &child, depth-1)
+		}
+		*f = child
+	}
+}
+
 // genInline: a field whose type is an anonymous schema defined in place (nested in the message)
 func genInline(r *vh.Rand, name string) uField {
 	u := uField{Name: name, Required: r.Chance(20), Bang: r.Bool(), PType: 11}
+	if r.Chance(15) {
+		// the description written inside the anonymous schema is the FIELD's description
+		u.Desc = vh.Pick(r, descTexts)
+	}
 	simple := func(n int) []uField {
 		ns := nameSet{}
 		var out []uField
@@ -193,6 +283,17 @@ func genInline(r *vh.Rand, name string) uField {
 	default:
 		u.Inline, u.J5Kind, u.PType = "enum", "enum", 14
 		u.InOptions = vh.Pick(r, [][]string{{"A", "B"}, {"LOW", "MID", "HIGH"}, {"UNSPECIFIED", "ON"}, {"X"}})
+	}
+	// inline schemas inside inline schemas, arrays and maps inside inline objects (the tree form of the
+	// model: KInlineTree; outside the formal quantifier, tied to the compiler like everything else)
+	if u.Inline != "enum" && len(u.InFields) > 0 && r.Chance(30) {
+		growTree(r, &u, 2)
+	}
+	// `array:object { .. }` / `map:object { .. }` (also oneof, enum): the anonymous schema is the item /
+	// value type of a repeated field
+	if r.Chance(35) {
+		u.Container = vh.Pick(r, []string{"array", "array", "map"})
+		u.Optional = !u.Required && r.Chance(10)
 	}
 	return u
 }
@@ -535,6 +636,7 @@ func genEntityOpt(r *vh.Rand, second bool, forcedName string) *entityDecl {
 		}
 		d.Query = q
 	}
+	addDescriptions(r, d)
 	return d
 }
 
@@ -704,6 +806,35 @@ var negClasses = []negClass{
 			uField{Name: "kind", Inline: "enum", J5Kind: "enum", PType: 14, InOptions: []string{"A"}},
 			uField{Name: "kindA", Inline: "enum", J5Kind: "enum", PType: 14, InOptions: []string{"B"}},
 			uField{Name: "kind_", Inline: "enum", J5Kind: "enum", PType: 14, InOptions: []string{"A"}})
+	}},
+	// the same faults two levels down (tree-form inline schemas)
+	{"tree-dup-field", 6, func(r *vh.Rand, d *entityDecl) {
+		inner := uField{Name: "inner", Inline: "object", J5Kind: "object", PType: 11,
+			InFields: []uField{plainString("twin"), plainString(vh.Pick(r, []string{"twin", "Twin"}))}}
+		d.Data = append(d.Data, uField{Name: "treeTwins", Inline: "object", J5Kind: "object", PType: 11, InFields: []uField{plainString("fine"), inner}})
+	}},
+	{"tree-optional-required", 4, func(r *vh.Rand, d *entityDecl) {
+		in := plainString("bothWays")
+		in.Required, in.Optional = true, true
+		inner := uField{Name: "inner", Inline: "object", J5Kind: "object", PType: 11, Container: vh.Pick(r, []string{"", "array", "map"}), InFields: []uField{in}}
+		d.Data = append(d.Data, uField{Name: "treeBoth", Inline: "object", J5Kind: "object", PType: 11, InFields: []uField{inner}})
+	}},
+	{"tree-oneof-option-type", 6, func(r *vh.Rand, d *entityDecl) {
+		inner := uField{Name: "pick", Inline: "oneof", J5Kind: "oneof", PType: 11, InFields: []uField{plainString("a"), plainString("type")}}
+		d.Data = append(d.Data, uField{Name: "treeChoice", Inline: "object", J5Kind: "object", PType: 11, InFields: []uField{inner}})
+	}},
+	{"tree-entry-clash", 6, func(r *vh.Rand, d *entityDecl) {
+		// inside a nested object: the entry message of the map `tags` and the inline type of `tagsEntry`
+		m := plainString("tags")
+		m.Container = "map"
+		clash := uField{Name: "tagsEntry", Inline: "object", J5Kind: "object", PType: 11, InFields: []uField{plainString("a")}}
+		inner := uField{Name: "inner", Inline: "object", J5Kind: "object", PType: 11, InFields: []uField{m, clash}}
+		d.Data = append(d.Data, uField{Name: "treeEntry", Inline: "object", J5Kind: "object", PType: 11, InFields: []uField{inner}})
+	}},
+	{"tree-dangling-reference", 3, func(r *vh.Rand, d *entityDecl) {
+		ref := uField{Name: "dangling", Obj: "NoSuchType", PType: 11, J5Kind: "object"}
+		inner := uField{Name: "inner", Inline: "object", J5Kind: "object", PType: 11, InFields: []uField{ref}}
+		d.Data = append(d.Data, uField{Name: "treeRef", Inline: "object", J5Kind: "object", PType: 11, InFields: []uField{inner}})
 	}},
 	{"dup-event-field", 6, func(r *vh.Rand, d *entityDecl) {
 		d.Events = append(d.Events, eEvent{Name: "WithTwins", Fields: []uField{plainString("twin"), plainString("twin")}})
@@ -1376,7 +1507,7 @@ func oracleC17(res *vh.Result, caseNo int, d *entityDecl, dump *dumped, in any) 
 			fail("C17 Events path parameters differ from Get's", "primary-key fields ... appear in declaration order as the path parameters of Get and Events", ql[3].Strs[3])
 		}
 		if len(getP) != len(primaries)+len(shardOnly) {
-			fail("C17 Get path has parameters that are neither primary nor shard keys", "path parameters of Get", ql[1].Strs[3])
+			fail("C17 Get path parameters are not exactly the primary and shard keys", "path parameters of Get", ql[1].Strs[3])
 		}
 	}
 	// the Get and Events requests hold every path key; a primary key is required there too
@@ -1602,6 +1733,9 @@ func countShape(res *vh.Result, e *entityDecl) {
 			switch {
 			case f.Inline != "":
 				kinds["inline_"+f.Inline] = true
+				if f.Container != "" {
+					kinds[f.Container+"_of_inline_"+f.Inline] = true
+				}
 			case f.Container != "":
 				kinds[f.Container] = true
 			case f.Ext != "":
